@@ -651,10 +651,11 @@ class FormStream(Stream):
 
 CHECK = Check(
     prop="C01",
-    gen=["Multipart", "PyFns_Multipart"],
-    modules=["WzVerif.Props.C01", "WzVerif.Props.C01T"],
+    gen=["Multipart", "PyFns_Multipart", "Urlencode", "PyFns_Decoder"],
+    modules=["WzVerif.Props.C01", "WzVerif.Props.C01T", "WzVerif.Props.C01T2"],
     streams=[KernelStream(), DataKernelStream(), SplitStream(), FormStream(), PreludeKernels()],
     assumptions=[
+        "C01T2 (MultipartDecoder._parse_data / _parse_headers / next_event as regenerated from the source): the regex calls (LINE_BREAK_RE.match, boundary_re.search, preamble_re.search, BLANK_LINE_RE.search, HEADER_CONTINUATION_RE.sub) and bytes.splitlines / bytes.strip go through the hand-written kernels of Model/Multipart.lean (stream regex-kernels compares those with the live regexes); match objects are (start, end, closing?) triples; parse_options_header is a parameter (FormOptions.parseOptionsHeader in the theorems); bytes.decode() is strict UTF-8; Headers is the list of (name, value) pairs with case-insensitive lookup",
         "CPython `re` (the five patterns compiled by werkzeug.sansio.multipart), bytes.splitlines/strip/find/rfind and str.strip/partition are modelled by hand-written total functions; validated by stream regex-kernels, not verified",
         "horizontal whitespace class [^\\S\\n\\r] and SEARCH_EXTRA_LENGTH are regenerated from the live module on every run; the regex pattern texts are regenerated and compared with the modelled ones by `decide`",
         "parse_options_header is modelled in Model/FormOptions.lean for token / quoted parameters and RFC 2231 numbered continuations; the charset form key*=utf-8''... is outside the model (never generated)",
